@@ -72,3 +72,16 @@ def dec_neg(s):
 
 def hex_neg(s):
     return hex_groups(s)[1]
+
+
+# ---------------------------------------------------------------------------
+# exact real values with a signed zero (what `as_real` returns)
+
+def is_neg_zero(r):
+    """r is the exact Float -0"""
+    return cls_name(r) == 'Float' and (r._real._s and r._real._c == 0 and not r._isinf and not r._isnan)
+
+
+def real_is(r, neg_zero, q):
+    """r is the exact real q, or the signed zero -0 when `neg_zero` (then q == 0)"""
+    return is_neg_zero(r) if cls_name(r) == 'Float' else (not neg_zero and r == q)
